@@ -32,7 +32,7 @@ META = {
             "INACTIVE contact slots, and forward() of both is identical; OBSERVATION recorded in the evidence: make_data pads contact.dist with 0 and contact.geom with -1 "
             "where put_data pads with 1e10 and 0; only active contacts are compared); put_data -> get_data on MjData with active contacts of condim 1/3/4/6 under both cones, a limit, a friction-loss dof "
             "and an equality returns counts, every efc_* field and the contact fields unchanged; KNOWN findings C44-F1 (rows with an all-zero Jacobian dropped) and "
-            "C44-F2 (contacts with dist > 0 inside the margin dropped) are replayed in both tiers and reported under their signatures only when the loss is exactly "
+            "C44-F2 (contacts with dist > 0 inside the margin dropped) and C44-F3 (static instead of active ne / nf / nl written by get_data) are replayed in both tiers and reported under their signatures only when the loss is exactly "
             "of that class.  NOT COVERED: plugin state (no plugin model can be built), warp / C++ back ends.",
     "note": "Trusted: Coq kernel; translate/mjxstate2v.py and translate/state2v.py (fail-closed readers); hand-written loop models "
             "Model/MjxState.v and Model/StateAPI.v; python driver c44_mjx.py with its own list of the 14 state fields; jax/numpy and the "
@@ -395,7 +395,7 @@ def run(ctx):
         sup["oracle_notes"] = orc["notes"]
         sup["known_finding_replays"] = orc.get("findings", [])
         if "findings" not in orc:
-            ctx.broken.append(("oracle", "fixed replays of C44-F1 / C44-F2 did not run", "; ".join(orc["notes"])[:400]))
+            ctx.broken.append(("oracle", "fixed replays of C44-F1 / C44-F2 / C44-F3 did not run", "; ".join(orc["notes"])[:400]))
         for fd in orc.get("findings", []):
             if fd["lost"]:
                 # the narrow class goes under the KNOWN-finding signature; any other loss on these inputs is an ordinary violation
